@@ -15,17 +15,26 @@ namespace detail {
 template <typename T>
 [[nodiscard]] constexpr auto nextafter(T from, T to) -> T
 {
-    using U             = etl::conditional_t<sizeof(T) == 4U, etl::uint32_t, etl::uint64_t>;
-    auto const fromBits = etl::bit_cast<U>(from);
-    auto const toBits   = etl::bit_cast<U>(to);
-    if (toBits == fromBits) {
+    using U = etl::conditional_t<sizeof(T) == 4U, etl::uint32_t, etl::uint64_t>;
+    if (from != from or to != to) {
+        return from + to;
+    }
+    if (from == to) {
         return to;
     }
-    if (toBits > fromBits) {
-        return etl::bit_cast<T>(fromBits + 1);
+    constexpr auto signMask = U(U(1) << (sizeof(U) * 8U - 1U));
+    if (from == T(0)) {
+        // smallest subnormal with the sign of the direction
+        return etl::bit_cast<T>(static_cast<U>((etl::bit_cast<U>(to) & signMask) | U(1)));
     }
-    return etl::bit_cast<T>(fromBits - 1);
+    auto const fromBits = etl::bit_cast<U>(from);
+    // the magnitude grows with the bit pattern: step away from zero when moving in the direction of the sign
+    if ((from < to) == (from > T(0))) {
+        return etl::bit_cast<T>(static_cast<U>(fromBits + 1));
+    }
+    return etl::bit_cast<T>(static_cast<U>(fromBits - 1));
 }
+
 } // namespace detail
 
 /// \ingroup cmath
